@@ -2,13 +2,15 @@ module ruxverif
 
 go 1.19
 
-require github.com/gookit/rux v0.0.0
+require (
+	github.com/gookit/rux v0.0.0
+	github.com/gookit/validate v1.5.4
+)
 
 require (
 	github.com/gookit/color v1.5.4 // indirect
 	github.com/gookit/filter v1.2.2 // indirect
 	github.com/gookit/goutil v0.6.18 // indirect
-	github.com/gookit/validate v1.5.4 // indirect
 	github.com/monoculum/formam v3.5.5+incompatible // indirect
 	github.com/xo/terminfo v0.0.0-20220910002029-abceb7e1c41e // indirect
 	golang.org/x/sync v0.10.0 // indirect
